@@ -283,7 +283,7 @@ func c04Case(_ map[string]int, i int) *Case {
 
 func init() {
 	register(&CheckDef{ID: "C04", Level: "exploration", Engine: "B", Draw: drawC04,
-		Rule: "wrapper level (engine B): byte streams = valid first record of every length class 0..2^14+2048 (boundaries and seeded interior values) and record version 0x0300..0x0304 followed by further records, truncated records, non-handshake first bytes, bad versions, plain text; crossed with read schedules (1 byte at a time, cut inside the 5-byte header, at 5, at the record boundary, inside the tail, random cuts, small caller buffers) and stream endings (EOF / reset / timeout, optionally delivered together with the last bytes). Oracle: bytes above the wrapper == bytes supplied below; GetClientHello == first 5+len bytes iff that many bytes were read without error, otherwise an error; asked after every read it never returns a partial or over-long record. End-to-end under segmentation is covered by C01/C02 runs (segmentation profiles). Distinct: distinct (stream, schedule) pairs.",
+		Rule:     "wrapper level (engine B): byte streams = valid first record of every length class 0..2^14+2048 (boundaries and seeded interior values) and record version 0x0300..0x0304 followed by further records, truncated records, non-handshake first bytes, bad versions, plain text; crossed with read schedules (1 byte at a time, cut inside the 5-byte header, at 5, at the record boundary, inside the tail, random cuts, small caller buffers) and stream endings (EOF / reset / timeout, optionally delivered together with the last bytes). Oracle: bytes above the wrapper == bytes supplied below; GetClientHello == first 5+len bytes iff that many bytes were read without error, otherwise an error; asked after every read it never returns a partial or over-long record. End-to-end under segmentation is covered by C01/C02 runs (segmentation profiles). Distinct: distinct (stream, schedule) pairs.",
 		EnumRule: "enumerated part: every composition (all 2^11 ways of cutting into successive reads) of ten 12-byte streams (valid records of length 0..6 with following bytes, a truncated record, a non-handshake record, a bad version), each with a plain EOF and with a terminal read that returns bytes together with the error.",
 		Enum: &EnumDef{
 			Params: func(run func(c *Case) *World) map[string]int { return map[string]int{"streams": len(c04EnumStreams)} },
